@@ -350,6 +350,25 @@ def check(run: Run) -> None:
                 run.finding("C09.d4", "reduce_evaluate:rearm-not-repeated", "a completed pass can end without re-arming the earliest pending deadline: " + fl.path_text(w),
                             loc=fl.cfg.describe(w[0][0]))
 
+    with run.obligation("C09.h", "K6", "starting a nested graph schedules a boundary consumer only to SAMPLE a source that already has a value; it never "
+                        "schedules a consumer of a source without a value (inlined, that consumer would not be evaluated in that cycle) "
+                        "(KNOWN FINDING F-C09-1 on the current tree)"):
+        NB = "include/hgraph/runtime/nested_bindings.h"
+        fa = R.fn(run, NB, "nested_input_binding_has_sampled_active_target")
+        cn = R.aliases_of(fa)
+        rets = [cn(r.e).replace(" ", "") for r in R.find(fa, lambda x: isinstance(x, C.Return)) if r.e is not None]
+        conds = [cn(s0.cond).replace(" ", "") for s0 in fa.body.walk() if isinstance(s0, C.If)]
+        run.sites(len(rets), 3, "sampling decisions")
+        run.count(1, "C09.h")
+        loose = [x for x in rets + conds if "accepts_invalid" in x or re.search(r"\|\|.*valid_inputs", x)]
+        if loose:
+            run.finding("C09.h", "nested_input_binding_has_sampled_active_target:accepts-invalid", "a consumer whose validity gate is empty (InputValidity::Unchecked) is "
+                        f"scheduled when its nested graph starts although the boundary source has no value ({loose[0]}): nested_<G> evaluates it in the start "
+                        "cycle with nothing modified, the inlined G does not", loc=fa.loc(fa.body))
+        need = [x for x in rets + conds if ".valid()" in x and ".active()" in x]
+        if not need:
+            run.finding("C09.h", "nested_input_binding_has_sampled_active_target:no-valid-test", "sampling must be limited to active inputs whose source is valid", loc=NB)
+
 
 def HDRX(cn, tail):
     return "graph_header(graph_context(context),graph.data())." + tail
